@@ -128,7 +128,18 @@ impl<S: Sample> FrameRenderHandle<S> {
         let render = if let Some(state) = self.start_render()? {
             let _guard = tracing::trace_span!("Run with image", index = self.frame.idx).entered();
 
+            #[cfg(jxl_oxide_verif)]
+            crate::verif::emit(crate::verif::Event::RenderBegin {
+                frame: self.frame.idx,
+                kind: "render",
+            });
             let render_result = (self.render_op)(state, self.image_region);
+            #[cfg(jxl_oxide_verif)]
+            crate::verif::emit(crate::verif::Event::RenderEnd {
+                frame: self.frame.idx,
+                kind: "render",
+                ok: !matches!(render_result, FrameRender::Err(_)),
+            });
             match render_result {
                 FrameRender::InProgress(_) => {
                     drop(self.done_render(render_result));
@@ -153,19 +164,51 @@ impl<S: Sample> FrameRenderHandle<S> {
         if let Some(state) = self.start_render_silent() {
             let _guard = tracing::trace_span!("Run", index = self.frame.idx).entered();
 
+            #[cfg(jxl_oxide_verif)]
+            crate::verif::emit(crate::verif::Event::RenderBegin {
+                frame: self.frame.idx,
+                kind: "render-bg",
+            });
             let render_result = (self.render_op)(state, image_region);
+            #[cfg(jxl_oxide_verif)]
+            crate::verif::emit(crate::verif::Event::RenderEnd {
+                frame: self.frame.idx,
+                kind: "render-bg",
+                ok: !matches!(render_result, FrameRender::Err(_)),
+            });
             drop(self.done_render(render_result));
         }
     }
 
     pub fn reset(&self) -> FrameRender<S> {
+        #[cfg(jxl_oxide_verif)]
+        crate::verif::emit(crate::verif::Event::BeforeLock {
+            frame: self.frame.idx,
+            site: "reset",
+            probe: &|| self.render.try_lock().is_ok(),
+        });
         let mut render_ref = self.render.lock().unwrap();
         std::mem::replace(&mut *render_ref, FrameRender::None)
     }
 
     fn start_render(&self) -> Result<Option<FrameRender<S>>> {
+        #[cfg(jxl_oxide_verif)]
+        crate::verif::emit(crate::verif::Event::BeforeLock {
+            frame: self.frame.idx,
+            site: "start_render",
+            probe: &|| self.render.try_lock().is_ok(),
+        });
         let mut render_ref = self.render.lock().unwrap();
         let render = std::mem::replace(&mut *render_ref, FrameRender::Rendering);
+        #[cfg(jxl_oxide_verif)]
+        crate::verif::emit(crate::verif::Event::StateStore {
+            frame: self.frame.idx,
+            tag: match &render {
+                FrameRender::None | FrameRender::InProgress(_) => "Rendering",
+                FrameRender::Err(_) | FrameRender::ErrTaken => "ErrTaken",
+                other => crate::verif::state_tag(other),
+            },
+        });
         match render {
             FrameRender::None | FrameRender::InProgress(_) => Ok(Some(render)),
             FrameRender::Err(e) => {
@@ -184,8 +227,22 @@ impl<S: Sample> FrameRenderHandle<S> {
     }
 
     fn start_render_silent(&self) -> Option<FrameRender<S>> {
+        #[cfg(jxl_oxide_verif)]
+        crate::verif::emit(crate::verif::Event::BeforeLock {
+            frame: self.frame.idx,
+            site: "start_render_silent",
+            probe: &|| self.render.try_lock().is_ok(),
+        });
         let mut render_ref = self.render.lock().unwrap();
         let render = std::mem::replace(&mut *render_ref, FrameRender::Rendering);
+        #[cfg(jxl_oxide_verif)]
+        crate::verif::emit(crate::verif::Event::StateStore {
+            frame: self.frame.idx,
+            tag: match &render {
+                FrameRender::None | FrameRender::InProgress(_) => "Rendering",
+                other => crate::verif::state_tag(other),
+            },
+        });
         match render {
             FrameRender::None | FrameRender::InProgress(_) => Some(render),
             render => {
@@ -196,6 +253,12 @@ impl<S: Sample> FrameRenderHandle<S> {
     }
 
     pub(crate) fn wait_until_render(&self) -> Result<MutexGuard<'_, FrameRender<S>>> {
+        #[cfg(jxl_oxide_verif)]
+        crate::verif::emit(crate::verif::Event::BeforeLock {
+            frame: self.frame.idx,
+            site: "wait_until_render",
+            probe: &|| self.render.try_lock().is_ok(),
+        });
         let mut render_ref = self.render.lock().unwrap();
         loop {
             let render = std::mem::replace(&mut *render_ref, FrameRender::None);
@@ -203,7 +266,15 @@ impl<S: Sample> FrameRenderHandle<S> {
                 FrameRender::Rendering => {
                     tracing::trace!(index = self.frame.idx, "Waiting...");
                     *render_ref = render;
+                    #[cfg(jxl_oxide_verif)]
+                    crate::verif::emit(crate::verif::Event::CondWaitEnter {
+                        frame: self.frame.idx,
+                    });
                     render_ref = self.condvar.wait(render_ref).unwrap();
+                    #[cfg(jxl_oxide_verif)]
+                    crate::verif::emit(crate::verif::Event::CondWaitExit {
+                        frame: self.frame.idx,
+                    });
                 }
                 FrameRender::Done(_) | FrameRender::Blended(_) => {
                     *render_ref = render;
@@ -220,8 +291,23 @@ impl<S: Sample> FrameRenderHandle<S> {
 
     pub(crate) fn done_render(&self, render: FrameRender<S>) -> MutexGuard<'_, FrameRender<S>> {
         assert!(!matches!(render, FrameRender::Rendering));
+        #[cfg(jxl_oxide_verif)]
+        crate::verif::emit(crate::verif::Event::BeforeLock {
+            frame: self.frame.idx,
+            site: "done_render",
+            probe: &|| self.render.try_lock().is_ok(),
+        });
         let mut guard = self.render.lock().unwrap();
         *guard = render;
+        #[cfg(jxl_oxide_verif)]
+        crate::verif::emit(crate::verif::Event::StateStore {
+            frame: self.frame.idx,
+            tag: crate::verif::state_tag(&*guard),
+        });
+        #[cfg(jxl_oxide_verif)]
+        crate::verif::emit(crate::verif::Event::NotifyAll {
+            frame: self.frame.idx,
+        });
         self.condvar.notify_all();
         guard
     }
